@@ -458,3 +458,36 @@ Definition sstate0 (specs : list screen_spec) (typed : list (option str)) (quit 
   {| st_stack := []; st_first := false; st_quit := quit; st_scr := map scr0 specs; st_ih := []; st_istack := [];
      st_processing := false; st_typed := typed; st_next_sd := 0; st_rb := false; st_rv := RNone;
      st_run_empty := run_empty |}.
+
+
+(* ---- a whole application session ---- *)
+Inductive saction := SACmds (l : list scmd) | SARun.
+
+(* the application's session: App.initialize(), then the actions; App.run() refuses an empty stack *)
+Fixpoint app_session (specs : nat -> screen_spec) (fuel : nat) (acts : list saction) (s : lstate sstate)
+  : list outcome * lstate sstate :=
+  match acts with
+  | [] => ([], s)
+  | a :: r =>
+    let '(o, s1) :=
+      match a with
+      | SACmds l => exec (screen_code specs) fuel (CProg (run_cmds specs 0 0 l)) (emit ETop s)
+      | SARun =>
+        match st_stack (ust s), st_run_empty (ust s) with
+        | [], false => (OThrow XError, emit ETop s)                 (* NothingScheduledError *)
+        | _, _ => exec (screen_code specs) fuel CRun (emit ETop s)
+        end
+      end in
+    match o with
+    | OBlocked | OFuel | OThrow XSysExit => ([o], s1)
+    | _ => let '(os, s2) := app_session specs fuel r s1 in (o :: os, s2)
+    end
+  end.
+
+
+(* App.initialize() on a fresh loop, then the session *)
+Definition app_run_all (specs : nat -> screen_spec) (specl : list screen_spec) (typed : list (option str))
+           (quit : option nat) (run_empty : bool) (fuel : nat) (acts : list saction) : list outcome * lstate sstate :=
+  let s0 := init_state (sstate0 specl typed quit run_empty) in
+  let '(_, s1) := exec (screen_code specs) 20 (CProg app_initialize) s0 in
+  app_session specs fuel acts s1.
